@@ -32,6 +32,15 @@ def plan(tier, seed):
                 regs.append('c04::I2I<%s, %s, %d>::reg("%s:%d|%s:%d")' % (sc(s, se), sc(dd, de), route, short(s), se, short(dd), de))
     for s, dd, se, de in [(S32, S64, -2, -6), (S64, S32, -6, -2), (S16, S32, 0, -3), (U32, U64, -4, -4), (S64, S64, 3, -5), (U8, S32, 2, 0)]:
         regs.append('c04::I2I<%s, %s, 0>::reg("r10|%s:%d|%s:%d")' % (sc(s, se, 10), sc(dd, de, 10), short(s), se, short(dd), de))
+    # cross-radix conversions, every sign combination of the two exponents
+    k = 0
+    for s, dd in [(S32, S32), (S64, S32), (S16, S32), (U32, U64), (S8, S16), (S32, S64)]:
+        for (sr, se, dr, de) in [(10, 3, 2, 4), (2, 4, 10, 1), (10, -2, 2, -8), (2, -8, 10, -2), (10, 2, 2, -3), (2, 3, 10, -2), (10, -3, 2, 2), (2, -5, 10, 1),
+                                 (3, 2, 10, 1), (10, 1, 3, -2), (3, -3, 2, -6), (2, 6, 3, 3)]:
+            k += 1
+            if quick and k % 2:
+                continue
+            regs.append('c04::I2IX<%s, %s, %d>::reg("r%d|%s:%d|r%d|%s:%d")' % (sc(s, se, sr), sc(dd, de, dr), k % 4 // 2, sr, short(s), se, dr, short(dd), de))
     # built-in integer <-> scaled
     for b in (S8, U8, S32, U32, S64, U64):
         for r, e in ((S32, -8), (U16, 3), (S64, -20), (U64, -1), (S8, -4)):
